@@ -214,16 +214,21 @@ def sliced():
             fold_un = arm
     if fold_bin is None or fold_un is None:
         raise slicer.SliceError("BinaryExpression / UnaryExpression arm of eval_const not found")
+    # free functions of the file that the two arms call (a refactoring may move part of the dispatch into helpers): sliced along
+    top = [n for n in slicer.fn_names(src) if n not in ("eval_const", "get_const_value")]
+    called = set(re.findall(r"\b([A-Za-z_][A-Za-z0-9_]*)\s*\(", fold_bin + fold_un))
+    folder_helpers = [slicer.function_text(src, n) for n in slicer.closure(src, [n for n in top if n in called], exclude=("eval_const", "get_const_value"))]
     parts = ["    // ---- text of rusty_linter's const_value_resolver.rs: the BinaryExpression and UnaryExpression arms of eval_const, unchanged ----",
              "    impl VkFolder {\n        pub fn vk_fold(&self, op: &Operator, left: &VkOperand, right: &VkOperand) -> Result<Variant, LintErrorPos> %s\n"
              "        pub fn vk_fold_unary(&self, op: &UnaryOperator, child: &VkOperand) -> Result<Variant, LintErrorPos> %s\n    }" % (fold_bin, fold_un),
-             "    // ---- text of the VM's operator handlers (handlers/math.rs, comparison.rs, logical.rs), unchanged ----"]
-    msrc = slicer.read(H % "math")
-    parts.append(slicer.functions_text(msrc, ["plus", "minus", "multiply", "divide", "modulo", "reduce_a_b_into_a"]))
-    csrc = slicer.read(H % "comparison")
-    parts.append(slicer.functions_text(csrc, ["equal", "not_equal", "less", "greater", "less_or_equal", "greater_or_equal", "cmp"]))
-    lsrc = slicer.read(H % "logical")
-    parts.append(slicer.functions_text(lsrc, ["and", "or", "negate_a", "not_a"]))
+             "\n\n".join("    " + t for t in folder_helpers),
+             "    // ---- text of the VM's operator handlers (handlers/math.rs, comparison.rs, logical.rs) and of the helpers they call, unchanged ----"]
+    for mod, roots in (("math", ["plus", "minus", "multiply", "divide", "modulo"]),
+                       ("comparison", ["equal", "not_equal", "less", "greater", "less_or_equal", "greater_or_equal"]),
+                       ("logical", ["and", "or", "negate_a", "not_a"])):
+        hsrc = slicer.read(H % mod)
+        hsrc = hsrc[:hsrc.index("#[cfg(test)]")] if "#[cfg(test)]" in hsrc else hsrc
+        parts.append(slicer.functions_text(hsrc, slicer.closure(hsrc, roots)))
     return "\n\n".join(parts)
 
 
